@@ -25,6 +25,11 @@ RULE = ('random cases: 1-4 balanced reactions (null space of the C/H/O formula m
         'set parts; then the container either refuses or acts like its definition: species / mass / atoms judged on a normal return), the refused setters of sets / items / set parts, a re-based copy of an item or member '
         '(the container acts as before, the copy like the member), conversions set through the set / an item / the system / a part / a member Reaction; optionally after a first call; appliers call / force_reaction / '
         'conversion / reactant_flux. '
+        'Observation after every outcome: after InfeasibleRegion the stream is back on its own package, material the library reacts on a copy (mass flows of a stream, views, ndarrays) is bit-identical and '
+        'material reacted in place has the mass and atoms of the feed; conversion(material) and reactant_flux leave the material bit-identical whatever they return or raise; refusals (UndefinedChemicalAlias, '
+        'the ValueError of reactant_flux without subindex, the error of a container whose members were re-based) leave the stream on its own package; InfeasibleRegion is accepted as a refusal only where the dense '
+        'model (computed before the call) finds a negative flow - in reactant_flux at the parts ahead, for combined reactions (a + b, sum, +=; co-reactants made sufficient with probability 0.7) for the members in '
+        'parallel, for containers with re-based members in the units of either basis; a phase-less reaction offered a MultiStream must refuse with the ValueError naming the phases. '
         'non-trivial = some conversion in (0,1] with non-zero reactant feed, >=3 species, normal return; distinct = hash of the case')
 MIN_NONTRIVIAL = {'quick': 500, 'thorough': 20000}
 ASSUMPTIONS = ['element counts come from a table written in the harness and cross-checked against the library at start-up',
@@ -32,9 +37,13 @@ ASSUMPTIONS = ['element counts come from a table written in the harness and cros
                'force_reaction (documented to ignore feasibility) is judged only when the dense model predicts no negative flow; non-negativity is not demanded of it',
                'with a co-reactant fed in exactly the amount consumed (added boundary branch) an InfeasibleRegion is counted, not judged: round-off of the flows decides the sign',
                'a stream carrying a chemical the reaction package does not know is refused by the library (UndefinedChemicalAlias): counted, not judged',
-               'a set / system whose member reactions were re-based in place after it was built: an error naming the basis, or InfeasibleRegion, is a refusal (counted, nothing demanded of the stream afterwards); '
+               'a set / system whose member reactions were re-based in place after it was built: an error naming the basis, or InfeasibleRegion on a feed the model (in the units of either basis) finds infeasible, is a refusal '
+               '(counted; afterwards the stream must be on its own property package, its flows are not judged: members ahead of the offending one may have acted); '
                'a normal return is judged against the reactions as defined (both bases give the same result on a stream); feeds the model finds infeasible are not judged in that state',
                'reactant_flux of such a system: a refusal is counted; a returned amount may be in the units of either basis (the documentation does not say which)',
+               'after InfeasibleRegion the flows of a target reacted in place are not compared with anything but their total mass and element totals (the library leaves the infeasible composition there); '
+               'that mass flows of streams, DictionaryView vectors and ndarrays are reacted on a copy and written back only on a normal return is the behaviour of the library as built, taken as the reference',
+               'a series / system whose INTERMEDIATE composition is negative while the final one is not: neither raising nor returning is judged (series reactions act on the running composition, so a raise is defensible)',
                'a conversion set on a Reaction object that is a DIRECT member of a ReactionSystem is expected to take effect (the system holds the very objects); conversions set on Reaction objects a set was built from are not exercised']
 
 
@@ -44,7 +53,11 @@ def required(tier):
             'set:one-member', 'system:one-part', 'form:str-int', 'form:auto-reactant', 'form:auto-phase', 'phases:solid', 'phases:three', 'phases:Ll', 'target:stream.mol', 'target:stream.mass',
             'target:stream-subset', 'target:stream-superset', 'sub:item', 'sub:iter', 'sub:slice', 'call:force', 'conversion', 'reactant-flux', 'feed:co-reactant-exactly-consumed', 'combined:+/mixed-basis', 'combined:sum/mixed-basis',
             'hist:self-basis', 'hist:member-basis-after', 'hist:member-basis-before', 'hist:all-members-rebased-before', 'hist:some-members-rebased-before', 'hist:refused-setter', 'hist:item-copy-rebased', 'hist:X-setter',
-            'hist:roundtrip', 'hist:set-member', 'hist:system-direct-member', 'hist:system-set-part-member', 'hist:stale-container', 'hist:after-first-call', 'hist:tagged', 'hist:call:force', 'hist:call:conversion', 'hist:call:flux']
+            'hist:roundtrip', 'hist:set-member', 'hist:system-direct-member', 'hist:system-set-part-member', 'hist:stale-container', 'hist:after-first-call', 'hist:tagged', 'hist:call:force', 'hist:call:conversion', 'hist:call:flux',
+            # observation points that must not be bypassed: the material after a raise (the property demands the raise) / after a sibling query, combined reactions judged on a normal return.
+            # Counters that exist only because the library as built refuses (refusal:material-judged, multiphase-target:refused-naming-phases, reactant-flux:infeasible-model-agrees,
+            # hist:stale-container-refused, hist:stale-infeasible) are recorded in the evidence but not required: a library that answers instead of refusing is not inconclusive
+            'infeasible:aftermath-judged', 'infeasible:copy-untouched', 'infeasible:in-place-mass', 'conversion:material-judged', 'reactant-flux:material-judged', 'combined:judged', 'combined:infeasible']
 
 
 PHASE_SETS = [('g', 'l')] * 6 + [('l', 's'), ('L', 'l'), ('g', 'l', 's'), ('L', 'g', 'l')]      # sorted the way the library sorts phases
@@ -300,6 +313,77 @@ def reach_of_case(case, rec):
     if case.get('exact'): rec.hit('feed:co-reactant-exactly-consumed')
 
 
+def roundoff_boundary(case, flows):
+    """True when some step of the dense model leaves a species it consumes at zero up to round-off (|after| <= 1e-12 * before, before > 0) - other than the reactant of a
+    single step converted with X = 1, which is exactly zero in the library too. Whether the library's ABSOLUTE threshold (-1e-12) is crossed there is decided by the
+    round-off of the flows (a feed that happens to be exactly stoichiometric). Used only to NAME the mechanism in the key of a spurious-InfeasibleRegion violation."""
+    comb = case['comb']
+    if comb == 'single': steps = [[case['members'][0]]]
+    elif comb == 'parallel': steps = [case['members']]
+    elif comb == 'series': steps = [[d] for d in case['members']]
+    else: steps = [g for m in case['members'] for g in ([[d] for d in m['rx']] if m['k'] == 'series' else [m['rx']])]
+    fl = flows
+    for ds in steps:
+        after = model({'comb': 'parallel', 'members': ds}, fl)
+        for d in ds:
+            for i, v in d['st'].items():
+                if v >= 0 or (len(ds) == 1 and i == d['reactant'] and d['X'] == 1.0): continue
+                k = (d['ph'][i], i) if d.get('ph') else i
+                b = fl.get(k, 0.0)
+                if b > 0 and abs(after.get(k, 0.0)) <= 1e-12 * b: return True
+        fl = after
+    return False
+
+
+def spurious_key(case, flows):
+    return 'spurious-infeasible/stoichiometric-feed-roundoff' if roundoff_boundary(case, flows) else 'spurious-infeasible'
+
+
+def raw_state(obj, stream):
+    """bit-exact copy of the material as the library holds it: the molar data of the stream (for streams and for their own flow vectors), else the array itself."""
+    d = stream.imol.data if stream is not None else obj
+    return d.to_array().copy() if hasattr(d, 'to_array') else np.array(d, float)
+
+
+def reacted_on_copy(case):
+    """the targets the library reacts on a copy that is written back only on a normal return (mass flows of a stream, views, plain ndarrays): after a raise they are untouched."""
+    t = case['target']
+    if t in ('stream', 'stream-foreign', 'stream-subset', 'stream-superset'): return case['basis'] == 'wt'
+    return t in ('stream.mass', 'nd', 'nd2')
+
+
+def unchanged(rec, clause, key, obj, stream, before, what):
+    now = raw_state(obj, stream)
+    return rec.check(now.shape == before.shape and np.array_equal(now, before), clause, key, f'{what}: {before.tolist()} -> {now.tolist()}')
+
+
+def after_refusal(rec, clause, how, tag, obj, stream, before, restored):
+    """a call refused before / without reacting (UndefinedChemicalAlias, the documented ValueError of reactant_flux): stream on its own package, material bit-identical."""
+    rec.hit('refusal:material-judged')
+    restored(how)
+    unchanged(rec, clause, f'refusal-changed-material/{how}/{tag}', obj, stream, before, f'the call was refused ({how}) but the material changed')
+
+
+def after_infeasible(rec, case, tag, obj, stream, before, restored, read, flows, MW, key=None):
+    """after InfeasibleRegion from __call__: own package restored; targets reacted on a copy untouched; targets reacted in place keep the mass and the atoms of the feed."""
+    key = key or tag
+    rec.hit('infeasible:aftermath-judged')
+    if not restored('InfeasibleRegion'): return
+    if reacted_on_copy(case):
+        rec.hit('infeasible:copy-untouched')
+        unchanged(rec, 'react', f'infeasible-changed-material/{key}', obj, stream, before, 'InfeasibleRegion was raised but the material (reacted on a copy) changed')
+        return
+    rec.hit('infeasible:in-place-mass')
+    got = read()
+    m0, m1 = R.mass_of(flows, MW), R.mass_of(got, MW); big = R.mass_of({k: abs(v) for k, v in got.items()}, MW)
+    rec.check(abs(m1 - m0) <= 1e-11 * max(m0, big), 'mass', f'after-infeasible/{key}', f'InfeasibleRegion was raised and the material was left with another total mass {m0!r} -> {m1!r}',
+              residual=abs(m1 - m0) / max(m0, big, 1e-300))
+    a0, a1 = R.atoms_of(flows), R.atoms_of(got); ab = R.atoms_of({k: abs(v) for k, v in got.items()})
+    rec.check(all(abs(x - y) <= 1e-11 * max(abs(x), b) + 1e-12 * max(ab) for x, y, b in zip(a0, a1, ab)), 'atoms', f'after-infeasible/{key}',
+              f'InfeasibleRegion was raised and the material was left with other element totals {a0} -> {a1}',
+              residual=max(abs(x - y) / max(abs(x), b, 1e-300) for x, y, b in zip(a0, a1, ab)))
+
+
 def run_case(case, rec):
     rec.begin_case(case)
     th = R.thermo()
@@ -336,15 +420,37 @@ def run_case(case, rec):
         for i, v in flows.items(): ms.imol['g' if ids_.index(i) % 2 == 0 else 'l', i] = v
         b0 = ms.imol.data.to_array().copy()
         rec.hit('target:multistream')
+        MWa = th.chemicals.MW
+        def rows_now():
+            d_ = ms.imol.data
+            return d_.to_array() if getattr(d_, 'ndim', 0) == 2 else None
         try:
             rx(ms)
-        except InfeasibleRegion:
-            rec.refuse('InfeasibleRegion'); return
-        except Exception as e:
-            a0 = ms.imol.data.to_array()
-            rec.refuse(f'phase-less reaction on a multi-phase stream refused ({type(e).__name__})')
-            rec.check(np.array_equal(a0, b0), 'multiphase-target', 'refusal-changed-stream', f'the call raised {type(e).__name__} but changed the stream: {b0.tolist()} -> {a0.tolist()}')
+        except InfeasibleRegion as e:
+            # a phase-less reaction that does react a multi-phase stream may find the conversion infeasible - but only when the dense model does; and whatever it did
+            # to the stream before raising, total mass is what it was
+            rec.hit('multiphase-target:infeasible')
+            if neg < -1e-13 or inter_neg < -1e-13: rec.refuse('InfeasibleRegion (model agrees: a flow would be negative)')
+            else:
+                rec.check(False, 'multiphase-target', f'spurious-infeasible/{case["comb"]}', 'phase-less reaction on a multi-phase stream raised InfeasibleRegion although the dense model predicts no negative flow '
+                          f'(most negative total {neg:.3g}); rows {b0.tolist()} -> {None if rows_now() is None else rows_now().tolist()}')
+            a0 = rows_now()
+            ok_ = a0 is not None and a0.shape == b0.shape
+            if ok_:
+                m0, m1 = float(b0.sum(0) @ MWa), float(a0.sum(0) @ MWa); big_ = float(np.abs(a0).sum(0) @ MWa)
+                ok_ = abs(m1 - m0) <= 1e-11 * max(m0, big_)
+            rec.check(ok_, 'multiphase-target', f'mass-after-infeasible/{case["comb"]}', f'the call raised InfeasibleRegion and left the multi-phase stream with another total mass / shape: rows {b0.tolist()} -> {None if a0 is None else a0.tolist()}')
             return
+        except ValueError as e:
+            if not ('multi-phase' in str(e) or 'phases do not match' in str(e)):
+                rec.exception('multiphase-target', e, what=f'phase-less {case["comb"]} reaction on a multi-phase stream raised ValueError that does not name the phases: {str(e)[:200]}'); return
+            a0 = rows_now()
+            rec.hit('multiphase-target:refused-naming-phases')
+            rec.refuse(f'phase-less reaction on a multi-phase stream refused ({type(e).__name__})')
+            rec.check(a0 is not None and np.array_equal(a0, b0), 'multiphase-target', 'refusal-changed-stream', f'the call raised {type(e).__name__} but changed the stream: {b0.tolist()} -> {None if a0 is None else a0.tolist()}')
+            return
+        except Exception as e:
+            rec.exception('multiphase-target', e, what=f'phase-less {case["comb"]} reaction on a multi-phase stream raised {type(e).__name__} (the documented refusal is a ValueError naming the phases): {str(e)[:200]}'); return
         a0 = ms.imol.data.to_array()
         tot0, tot1 = b0.sum(0), a0.sum(0)
         MWa = th.chemicals.MW
@@ -366,10 +472,12 @@ def run_case(case, rec):
     def restored(how):
         if foreign:
             pk = stream_package(case).chemicals
-            rec.check(stream.chemicals is pk and stream.imol.chemicals is pk, 'package-restored', f'{how}/{tag}',
-                      f'after {how} the stream is not back on its own property package (stream.chemicals own: {stream.chemicals is pk}, stream.imol.chemicals own: {stream.imol.chemicals is pk})')
+            return rec.check(stream.chemicals is pk and stream.imol.chemicals is pk, 'package-restored', f'{how}/{tag}',
+                             f'after {how} the stream is not back on its own property package (stream.chemicals own: {stream.chemicals is pk}, stream.imol.chemicals own: {stream.imol.chemicals is pk})')
+        return True
     if call in ('conversion', 'flux'):
         return siblings(call, case, full, rec, rx, obj, read, flows, expected, th, MW, tag, scale, restored)
+    before = raw_state(obj, stream)
     try:
         (rx.force_reaction if call == 'force' else rx)(obj)
         raised = None
@@ -377,10 +485,15 @@ def run_case(case, rec):
         raised = e
     except UndefinedChemicalAlias as e:
         if case['target'] == 'stream-superset' and case.get('extra_flow'):
-            rec.refuse('stream carries a chemical the reaction package does not know (UndefinedChemicalAlias)'); return
+            rec.refuse('stream carries a chemical the reaction package does not know (UndefinedChemicalAlias)')
+            after_refusal(rec, 'react', 'UndefinedChemicalAlias', tag, obj, stream, before, restored); return
         rec.exception('react', e, what=f'reaction call ({tag}) raised {type(e).__name__}: {str(e)[:200]}'); return
     except Exception as e:
         rec.exception('react', e, what=f'reaction call ({tag}) raised {type(e).__name__}: {str(e)[:200]}'); return
+    if raised is not None:
+        # whatever the verdict on the raise itself: the stream is back on its own package, the material the library reacts on a copy is untouched, and
+        # material reacted in place still has the mass and the atoms of the feed (every step applied is balanced)
+        after_infeasible(rec, case, tag, obj, stream, before, restored, read, flows, MW)
     if call == 'force':
         rec.hit('call:force')
         if raised is not None:
@@ -396,7 +509,7 @@ def run_case(case, rec):
         if neg < -1e-13:
             rec.ok('must-raise'); rec.refuse('InfeasibleRegion (model agrees: a flow would be negative)')
         else:
-            rec.check(False, 'react', f'spurious-infeasible/{tag}', f'InfeasibleRegion raised although the dense model predicts no negative flow (most negative total {neg:.3g})',
+            rec.check(False, 'react', f'{spurious_key(case, flows)}/{tag}', f'InfeasibleRegion raised although the dense model predicts no negative flow (most negative total {neg:.3g})',
                       detail={'expected': {str(k): v for k, v in expected.items()}})
         return
     if inter_neg < -1e-9 and neg >= -1e-9:
@@ -466,7 +579,11 @@ def run_case(case, rec):
                     if abs(got.get(k, 0.0) - got2.get(k, 0.0)) > 1e-10 * max(abs(got.get(k, 0.0)), abs(got2.get(k, 0.0))) + 1e-11 * scale]
             rec.check(not bad2, 'basis-equivalence', f'{tag}', f'copy(basis={other}) gives another result on the same stream: {bad2[:4]}')
         except InfeasibleRegion:
-            rec.refuse('basis copy infeasible at round-off level')
+            # the call itself returned normally: the copy on the other basis (threshold in other units) or the source used again may only raise where the model is at the threshold
+            rec.hit('basis-equivalence:copy-infeasible')
+            if min(neg_mol, neg_mass) < -1e-13 or inter_neg < -1e-13 or full.get('exact'): rec.refuse('basis copy infeasible at round-off level')
+            else: rec.check(False, 'basis-equivalence', f'copy-{spurious_key(case, flows)}/{tag}', f'the reaction returned normally but its copy(basis={other}) / the source used again raised InfeasibleRegion on the same feed '
+                            f'although the dense model predicts no negative flow (most negative total {min(neg_mol, neg_mass):.3g})')
         except Exception as e:
             rec.exception('basis-equivalence', e, what=f'copy(basis={other}) path raised {type(e).__name__}: {str(e)[:200]}')
     allrx = case['members'] if case['comb'] != 'system' else [r for m in case['members'] for r in m['rx']]
@@ -479,12 +596,15 @@ def siblings(call, case, full, rec, rx, obj, read, flows, expected, th, MW, tag,
     ids = th.chemicals.IDs
     phases = tuple(case.get('phases') or ('g', 'l'))
     f = (lambda i: MW[i]) if case['basis'] == 'wt' else (lambda i: 1.0)      # streams are read in the basis of the reaction, bare arrays are given in it
+    stream = getattr(read, 'stream', None)
+    before = raw_state(obj, stream)
     if call == 'conversion':
         try:
             chg = rx.conversion(obj)
         except UndefinedChemicalAlias as e:
             if case['target'] == 'stream-superset' and case.get('extra_flow'):
-                rec.refuse('stream carries a chemical the reaction package does not know (UndefinedChemicalAlias)'); return
+                rec.refuse('stream carries a chemical the reaction package does not know (UndefinedChemicalAlias)')
+                after_refusal(rec, 'conversion', 'UndefinedChemicalAlias', tag, obj, stream, before, restored); return
             rec.exception('conversion', e, what=f'conversion(material) ({tag}) raised {type(e).__name__}: {str(e)[:200]}'); return
         except Exception as e:
             rec.exception('conversion', e, what=f'conversion(material) ({tag}) raised {type(e).__name__}: {str(e)[:200]}'); return
@@ -499,35 +619,59 @@ def siblings(call, case, full, rec, rx, obj, read, flows, expected, th, MW, tag,
         rec.check(not bad, 'conversion', tag, f'conversion(material) != X*feed_r*nu (mol): {bad[:4]}', residual=worst,
                   detail={'expected-change': {str(k): expected.get(k, 0.0) - flows.get(k, 0.0) for k in set(expected) | set(flows)}, 'got': {str(k): v for k, v in got.items()}})
         restored('conversion(material)')
+        # conversion(material) is a question about the material, not an application: the material is bit-identical afterwards
+        rec.hit('conversion:material-judged')
+        unchanged(rec, 'conversion', f'material-changed/{tag}', obj, stream, before, 'conversion(material) changed the material it was asked about')
         d = case['members'][0]
         if d['X'] > 0 and flows.get((d['ph'][d['reactant']], d['reactant']) if d.get('ph') else d['reactant'], 0) > 0 and len(d['st']) >= 3: rec.mark_nontrivial(case_hash(full))
         return
     # reactant_flux(material, index, subindex)
     i, j = case['flux']
     parts = case['members']
+    # dense model FIRST (a refusal is granted only where the model warrants it): the parts ahead act in sequence; inside a series part the members ahead act too; inside
+    # a parallel part all members see the part's feed. The library applies every part ahead (and every member ahead of a series part) through its feasibility test:
+    # `lowest` = most negative flow (mol), `low_b` = most negative total of the negative flows (units of the basis) at those points
+    fl = dict(flows); lowest = 0.0; low_b = 0.0
+    def look(fl):
+        nonlocal lowest, low_b
+        lowest = min([lowest] + list(fl.values()))
+        low_b = min(low_b, sum(v * f(k[1] if isinstance(k, tuple) else k) for k, v in fl.items() if v < 0))
+    for m in parts[:i]:
+        fl = model({'comb': m['k'], 'members': m['rx']}, fl); look(fl)
+    m = parts[i]
+    if m['k'] == 'series' and j is not None:
+        for d in m['rx'][:j]:
+            fl = R.model_apply(fl, d); look(fl)
+    kind = m['k'] + ('' if j is None else '-member')
+    def untouched(how):
+        # reactant_flux is a question about the material: whatever the outcome, the material is bit-identical afterwards and the stream on its own package
+        rec.hit('reactant-flux:material-judged')
+        restored(how)
+        unchanged(rec, 'reactant-flux', f'material-changed/{how}/{kind}/{tag}', obj, stream, before, f'{how} changed the material it was asked about')
     try:
         got = rx.reactant_flux(obj, i) if j is None else rx.reactant_flux(obj, i, j)
     except UndefinedChemicalAlias as e:
         if case['target'] == 'stream-superset' and case.get('extra_flow'):
-            rec.refuse('stream carries a chemical the reaction package does not know (UndefinedChemicalAlias)'); return
+            rec.refuse('stream carries a chemical the reaction package does not know (UndefinedChemicalAlias)')
+            after_refusal(rec, 'reactant-flux', 'UndefinedChemicalAlias', tag, obj, stream, before, restored); return
         rec.exception('reactant-flux', e, what=f'reactant_flux ({tag}) raised {type(e).__name__}: {str(e)[:200]}'); return
     except InfeasibleRegion:
-        rec.refuse('reactant_flux: a part ahead of the addressed one is infeasible on this feed'); return
+        rec.hit('reactant-flux:infeasible')
+        if low_b < -1e-13:
+            rec.hit('reactant-flux:infeasible-model-agrees'); rec.refuse('reactant_flux: a part ahead of the addressed one is infeasible on this feed')
+        elif full.get('exact'):
+            rec.refuse('InfeasibleRegion at the exact-consumption boundary (round-off decides; not judged)')
+        else:
+            rec.check(False, 'reactant-flux', f'{spurious_key(case, flows)}/{kind}/{tag}', f'reactant_flux(index={i}, subindex={j}) raised InfeasibleRegion although the dense model finds every part ahead of the addressed one '
+                      f'feasible (most negative total ahead {low_b:.3g})', detail={'running-composition': {str(k): v for k, v in fl.items()}})
+        untouched('reactant_flux-infeasible'); return
     except ValueError as e:
         if parts[i]['k'] == 'series' and j is None and 'subindex' in str(e):
-            rec.refuse('reactant_flux of a series part without subindex (documented ValueError)'); restored('reactant_flux-refused'); return
+            rec.refuse('reactant_flux of a series part without subindex (documented ValueError)'); untouched('reactant_flux-refused'); return
         rec.exception('reactant-flux', e, what=f'reactant_flux ({tag}) raised {type(e).__name__}: {str(e)[:200]}'); return
     except Exception as e:
         rec.exception('reactant-flux', e, what=f'reactant_flux ({tag}) raised {type(e).__name__}: {str(e)[:200]}'); return
-    # dense model: the parts ahead act in sequence; inside a series part the members ahead act too; inside a parallel part all members see the part's feed
-    fl = dict(flows); lowest = 0.0
-    for m in parts[:i]:
-        fl = model({'comb': m['k'], 'members': m['rx']}, fl)
-        lowest = min([lowest] + list(fl.values()))
-    m = parts[i]
-    if m['k'] == 'series' and j is not None:
-        for d in m['rx'][:j]:
-            fl = R.model_apply(fl, d); lowest = min([lowest] + list(fl.values()))
+    untouched('reactant_flux')
     if lowest < -1e-13:
         rec.refuse('reactant_flux behind an infeasible part (not judged)'); return
     def amount(d):
@@ -535,11 +679,9 @@ def siblings(call, case, full, rec, rx, obj, read, flows, expected, th, MW, tag,
         return d['X'] * fl.get(k, 0.0) * f(r)
     ds = m['rx'] if j is None else [m['rx'][j]]
     exp = sum(amount(d) for d in ds)
-    kind = m['k'] + ('' if j is None else '-member')
     big = max([abs(v) * f(k[1] if isinstance(k, tuple) else k) for k, v in fl.items()] + [1e-300])
     ok = np.ndim(got) == 0 and abs(float(got) - exp) <= 1e-11 * max(abs(exp), abs(float(got))) + 1e-12 * big
     rec.check(ok, 'reactant-flux', f'{kind}/{tag}', f'reactant_flux(index={i}, subindex={j}) = {got!r} but X * running reactant amount = {exp!r}', residual=(abs(float(got) - exp) / big) if np.ndim(got) == 0 else None)
-    restored('reactant_flux')
     if exp > 0: rec.mark_nontrivial(case_hash(full))
 
 
@@ -561,7 +703,15 @@ def gen_sum(rng):
     for d in rx:
         d['X'] = round(rng.uniform(0.02, 0.25), 4); d['basis'] = rng.choice(['mol', 'wt'])
     feed = {i: round(10 ** rng.uniform(1.5, 3), 3) for i in R.IDS}
-    return {'t': 'sum', 'rx': rx, 'how': rng.choice(['+', 'sum', '+=']), 'feed': feed, 'foreign': rng.random() < 0.25}
+    how = rng.choice(['+', 'sum', '+=']); foreign = rng.random() < 0.25
+    if rng.random() < 0.7:
+        # make the co-reactants sufficient (the members act in parallel on the feed), so that the combined reaction is judged on a normal return rather than refused
+        need = {}
+        for d in rx:
+            for i, v in d['st'].items():
+                if v < 0 and i != r: need[i] = need.get(i, 0.0) + feed[r] * d['X'] * v / d['st'][r]
+        for i, v in need.items(): feed[i] = max(feed[i], round(v * rng.uniform(1.05, 3.0), 3))
+    return {'t': 'sum', 'rx': rx, 'how': how, 'feed': feed, 'foreign': foreign}
 
 
 def run_sum(case, rec):
@@ -585,22 +735,47 @@ def run_sum(case, rec):
     st = tmo.Stream(None, thermo=sth)
     for i, v in case['feed'].items(): st.imol[i] = v
     flows = dict(case['feed'])
+    # the members in parallel on the feed (computed BEFORE the call: a refusal is granted only where this model warrants it)
+    exp = dict(flows)
+    for d in case['rx']:
+        ext = R.model_extent(flows, d)
+        for i, v in d['st'].items(): exp[i] = exp.get(i, 0.0) + ext * v / -d['st'][d['reactant']]
+    neg_mol = sum(v for v in exp.values() if v < 0); neg_mass = sum(MW[i] * v for i, v in exp.items() if v < 0)      # neg_mass <= 2 * neg_mol: whatever the basis of the result,
+    before = st.imol.data.to_array().copy()                                                                             # its test sees a total between the two
+    def own():
+        pk = sth.chemicals
+        return rec.check(st.chemicals is pk and st.imol.chemicals is pk, 'package-restored', f'combined/{tag}', 'after the call of a combined reaction the stream is not back on its own property package') if case['foreign'] else True
     try:
         tot(st)
     except InfeasibleRegion:
-        rec.refuse('InfeasibleRegion'); return
+        rec.hit('combined:infeasible')
+        if neg_mass < -1e-13:
+            rec.ok('must-raise'); rec.refuse('InfeasibleRegion (model agrees: a flow would be negative)')
+        else:
+            rec.check(False, 'react', f'{spurious_key({"comb": "parallel", "members": case["rx"]}, flows)}/combined/{tag}', f'a reaction obtained by {case["how"]} of reactions on bases {bases} raised InfeasibleRegion although its members in parallel leave no negative flow '
+                      f'(most negative total {neg_mol:.3g} mol)', detail={'expected': exp})
+        if own():
+            # a stream reacted in place (result on a molar basis) keeps mass and atoms, one reacted on a copy (weight basis) is untouched: either way total mass is what it was
+            got = {st.chemicals.IDs[j]: v for j, v in st.imol.data.dct.items()}
+            m0, m1 = R.mass_of(flows, MW), R.mass_of(got, MW); big = R.mass_of({k: abs(v) for k, v in got.items()}, MW)
+            rec.check(abs(m1 - m0) <= 1e-11 * max(m0, big), 'mass', f'after-infeasible/combined/{tag}', f'InfeasibleRegion was raised and the stream was left with another total mass {m0!r} -> {m1!r}', residual=abs(m1 - m0) / max(m0, big))
+        return
     except Exception as e:
         rec.exception('combine', e, what=f'applying a combined reaction ({tag}) raised {type(e).__name__}: {str(e)[:150]}'); return
+    own()
+    if neg_mol < -1e-9:
+        rec.check(False, 'must-raise', f'returned-negative/combined/{tag}', f'a reaction obtained by {case["how"]} of reactions on bases {bases} returned normally although its members in parallel require a negative flow '
+                  f'(predicted negative total {neg_mol:.3g} mol)', detail={'expected': exp, 'got': {st.chemicals.IDs[j]: v for j, v in st.imol.data.dct.items()}})
+        return
+    rec.hit('combined:judged')
     got = {st.chemicals.IDs[j]: v for j, v in st.imol.data.dct.items()}
     m0, m1 = R.mass_of(flows, MW), R.mass_of(got, MW)
     rec.check(abs(m1 - m0) <= 1e-11 * max(m0, m1), 'mass', f'combined/{tag}', f'a reaction obtained by {case["how"]} of reactions on bases {bases} changed total mass {m0!r} -> {m1!r}', residual=abs(m1 - m0) / max(m0, 1e-300))
     a0, a1 = R.atoms_of(flows), R.atoms_of(got); amax = max(a0)
     rec.check(all(abs(x - y) <= 1e-11 * max(abs(x), abs(y)) + 1e-12 * amax for x, y in zip(a0, a1)), 'atoms', f'combined/{tag}', f'a reaction obtained by {case["how"]} of reactions on bases {bases} changed element totals {a0} -> {a1}')
+    negs = [(k, v) for k, v in got.items() if v < 0]
+    rec.check(not negs, 'non-negative', f'combined/{tag}', f'negative flows after a normal return of a combined reaction: {negs[:4]}')
     # species: the members in parallel on the feed
-    exp = dict(flows)
-    for d in case['rx']:
-        ext = R.model_extent(flows, d)
-        for i, v in d['st'].items(): exp[i] = exp.get(i, 0.0) + ext * v / -d['st'][d['reactant']]
     scale = max(flows.values())
     bad = [(k, got.get(k, 0.0), exp.get(k, 0.0)) for k in set(got) | set(exp) if abs(got.get(k, 0.0) - exp.get(k, 0.0)) > 1e-10 * max(abs(got.get(k, 0.0)), abs(exp.get(k, 0.0))) + 1e-12 * scale]
     rec.check(not bad, 'species', f'combined/{tag}', f'combined reaction ({tag}; bases {bases}) differs from its members in parallel: {bad[:4]}')
@@ -746,6 +921,14 @@ def judge_history_call(case, rec, rx, th, MW, flows, htag, tag, call, state):
     obj, read = make_target(case, th, flows, MW)
     key = f'history:{htag}/{tag}' + ('/force_reaction' if call == 'force' else '')
     scale = max([abs(v) for v in flows.values()] + [1e-300])
+    foreign = case['target'] in ('stream-foreign', 'stream-subset')
+    def restored(how):
+        if foreign:
+            pk = stream_package(case).chemicals
+            return rec.check(obj.chemicals is pk and obj.imol.chemicals is pk, 'package-restored', f'{how}/{key}',
+                             f'after {how} the stream is not back on its own property package (stream.chemicals own: {obj.chemicals is pk}, stream.imol.chemicals own: {obj.imol.chemicals is pk})')
+        return True
+    before = raw_state(obj, obj)
     try:
         (rx.force_reaction if call == 'force' else rx)(obj)
         raised = None
@@ -753,10 +936,22 @@ def judge_history_call(case, rec, rx, th, MW, flows, htag, tag, call, state):
         raised = e
     except Exception as e:
         if state == 'stale' and is_basis_refusal(e):
-            rec.hit('hist:stale-container-refused'); rec.refuse(f'a container whose members were re-based after it was built refused the call ({type(e).__name__}: bases differ)'); return False
+            rec.hit('hist:stale-container-refused'); rec.refuse(f'a container whose members were re-based after it was built refused the call ({type(e).__name__}: bases differ)')
+            # a refusal is an answer about the reactions, not an application: the stream stays a stream of its own package
+            if restored('basis-refusal') and not np.array_equal(raw_state(obj, obj), before): rec.hit('hist:basis-refusal-left-stream-partly-reacted')      # counted, not judged (mass is conserved by every member applied)
+            return False
         rec.exception('react', e, what=f'reaction call after history ({key}) raised {type(e).__name__}: {str(e)[:200]}'); return False
+    if raised is not None:
+        if state == 'stale': rec.hit('hist:stale-infeasible'); restored('InfeasibleRegion')
+        else: after_infeasible(rec, case, tag, obj, obj, before, restored, read, flows, MW, key=key)
     if state == 'stale':
-        if raised is not None: rec.refuse('InfeasibleRegion from a container whose members were re-based after it was built (not judged)'); return False
+        if raised is not None:
+            # the container either refuses (error naming the basis) or acts like its definition: then InfeasibleRegion needs a negative flow in the model (in the units of either basis)
+            if neg < -1e-13 or inter_neg < -1e-13: rec.refuse('InfeasibleRegion from a container whose members were re-based after it was built (not judged)')
+            else:
+                rec.check(False, 'react', f'{spurious_key(case, flows)}/stale-container/{key}', f'a container whose members were re-based after it was built raised InfeasibleRegion although the reactions as defined leave no negative flow '
+                          f'(most negative total {neg:.3g})', detail={'expected': {str(k): v for k, v in expected.items()}})
+            return False
         if neg < -1e-13 or inter_neg < -1e-13: rec.refuse('container with re-based members on a feed the model finds infeasible (not judged)'); return False
         rec.hit('hist:stale-container-returned')
     else:
@@ -769,7 +964,7 @@ def judge_history_call(case, rec, rx, th, MW, flows, htag, tag, call, state):
             if neg >= -1e-13 and inter_neg < -1e-13: rec.refuse('InfeasibleRegion (an intermediate composition of the series would be negative)'); return False
             if neg < -1e-13: rec.ok('must-raise'); rec.refuse('InfeasibleRegion (model agrees: a flow would be negative)')
             else:
-                rec.check(False, 'react', f'spurious-infeasible/{key}', f'InfeasibleRegion raised although the dense model predicts no negative flow (most negative total {neg:.3g})',
+                rec.check(False, 'react', f'{spurious_key(case, flows)}/{key}', f'InfeasibleRegion raised although the dense model predicts no negative flow (most negative total {neg:.3g})',
                           detail={'expected': {str(k): v for k, v in expected.items()}})
             return False
         if inter_neg < -1e-9 and neg >= -1e-9:
@@ -813,16 +1008,8 @@ def stale_flux(case, rec, rx, th, MW, flows, htag, tag, i, j):
     addressed member (in the units of either basis: the system's and the member's differ, the documentation does not say which one is meant)."""
     obj, read = make_target(case, th, flows, MW)
     parts = case['members']
-    try:
-        got = rx.reactant_flux(obj, i) if j is None else rx.reactant_flux(obj, i, j)
-    except InfeasibleRegion:
-        rec.refuse('reactant_flux: a part ahead of the addressed one is infeasible on this feed'); return False
-    except Exception as e:
-        if parts[i]['k'] == 'series' and j is None and isinstance(e, ValueError) and 'subindex' in str(e):
-            rec.refuse('reactant_flux of a series part without subindex (documented ValueError)'); return False
-        if is_basis_refusal(e):
-            rec.hit('hist:stale-container-refused'); rec.refuse(f'reactant_flux of a system whose members were re-based after it was built refused ({type(e).__name__}: bases differ)'); return False
-        rec.exception('reactant-flux', e, what=f'reactant_flux after history ({htag}/{tag}) raised {type(e).__name__}: {str(e)[:200]}'); return False
+    key = f'history:{htag}/{parts[i]["k"] + ("" if j is None else "-member")}/{tag}'
+    # dense model first: a refusal for infeasibility is granted only where the model finds a part ahead negative
     fl = dict(flows); lowest = 0.0
     for m in parts[:i]:
         fl = model({'comb': m['k'], 'members': m['rx']}, fl); lowest = min([lowest] + list(fl.values()))
@@ -830,6 +1017,29 @@ def stale_flux(case, rec, rx, th, MW, flows, htag, tag, i, j):
     if m['k'] == 'series' and j is not None:
         for d in m['rx'][:j]:
             fl = R.model_apply(fl, d); lowest = min([lowest] + list(fl.values()))
+    before = raw_state(obj, obj)
+    def untouched(how):
+        rec.hit('reactant-flux:material-judged')
+        if case['target'] in ('stream-foreign', 'stream-subset'):
+            pk = stream_package(case).chemicals
+            rec.check(obj.chemicals is pk and obj.imol.chemicals is pk, 'package-restored', f'{how}/{key}', f'after {how} the stream is not back on its own property package')
+        unchanged(rec, 'reactant-flux', f'material-changed/{how}/{key}', obj, obj, before, f'{how} changed the material it was asked about')
+    try:
+        got = rx.reactant_flux(obj, i) if j is None else rx.reactant_flux(obj, i, j)
+    except InfeasibleRegion:
+        if lowest < -1e-13: rec.refuse('reactant_flux: a part ahead of the addressed one is infeasible on this feed')
+        else:
+            rec.check(False, 'reactant-flux', f'{spurious_key(case, flows)}/{key}', f'after the history [{htag}] reactant_flux(index={i}, subindex={j}) raised InfeasibleRegion although the dense model finds every part ahead feasible '
+                      f'(most negative flow ahead {lowest:.3g})')
+        untouched('reactant_flux-infeasible'); return False
+    except Exception as e:
+        if parts[i]['k'] == 'series' and j is None and isinstance(e, ValueError) and 'subindex' in str(e):
+            rec.refuse('reactant_flux of a series part without subindex (documented ValueError)'); untouched('reactant_flux-refused'); return False
+        if is_basis_refusal(e):
+            rec.hit('hist:stale-container-refused'); rec.refuse(f'reactant_flux of a system whose members were re-based after it was built refused ({type(e).__name__}: bases differ)')
+            untouched('reactant_flux-basis-refusal'); return False
+        rec.exception('reactant-flux', e, what=f'reactant_flux after history ({htag}/{tag}) raised {type(e).__name__}: {str(e)[:200]}'); return False
+    untouched('reactant_flux')
     if lowest < -1e-13:
         rec.refuse('reactant_flux behind an infeasible part (not judged)'); return False
     ds = m['rx'] if j is None else [m['rx'][j]]
@@ -840,7 +1050,7 @@ def stale_flux(case, rec, rx, th, MW, flows, htag, tag, i, j):
     big = max([abs(v) * MW[k[1] if isinstance(k, tuple) else k] for k, v in fl.items()] + [1e-300])
     ok = np.ndim(got) == 0 and any(abs(float(got) - x) <= 1e-11 * max(abs(x), abs(float(got))) + 1e-12 * big for x in exps)
     rec.hit('hist:stale-container-returned')
-    rec.check(ok, 'reactant-flux', f'history:{htag}/{m["k"] + ("" if j is None else "-member")}/{tag}',
+    rec.check(ok, 'reactant-flux', key,
               f'after the history [{htag}] reactant_flux(index={i}, subindex={j}) = {got!r} but X * running reactant amount = {exps[0]!r} (mol) / {exps[1]!r} (mass)')
     return True
 
